@@ -319,10 +319,16 @@ func (h *c14cliRun) evalTaxonomy(scheme int, parent []int, ranks []string, only 
 				for _, x := range K {
 					args = append(args, "--require-rank", x)
 				}
-				opt := getoptions.New()
-				TaxonomySelectionOptionSet(opt)
-				if _, err := opt.Parse(args); err != nil {
-					r.Violate("TaxonomySelectionOptionSet/parse-error", fmt.Sprintf("%v: %v", args, err), c)
+				var perr error
+				if !guard("TaxonomySelectionOptionSet", c, func() {
+					opt := getoptions.New()
+					TaxonomySelectionOptionSet(opt)
+					_, perr = opt.Parse(args)
+				}) {
+					continue
+				}
+				if perr != nil {
+					r.Violate("TaxonomySelectionOptionSet/parse-error", fmt.Sprintf("%v: %v", args, perr), c)
 					continue
 				}
 				if len(_BelongTaxa) != len(R) || len(_NotBelongTaxa) != len(I) || len(_RequiredRanks) != len(K) {
